@@ -157,10 +157,15 @@ def getitem(I, base, idx):
             return I.call_repo(raw, [base, idx], {}, None)
     import numpy as _np
 
-    if base is _np.c_:
+    if base is _np.c_ or base is _np.r_:
         from . import models_np
 
-        return models_np.np_c_getitem(I, idx)
+        try:
+            return models_np.np_c_getitem(I, idx) if base is _np.c_ else models_np.np_r_getitem(I, idx)
+        except Unsupported:
+            if I.lenient and I.has_opaque(list(idx) if isinstance(idx, tuple) else [idx]):
+                return Opaque("np.r_/c_[...]")
+            raise
     if isinstance(base, Opaque) and base.tag.startswith("h5"):
         from . import models_h5
 
